@@ -81,7 +81,7 @@ var targets = []target{
 }
 
 // constants of these files are needed too (no function of them is translated)
-var extraFiles = []string{"simple_tree_spreader.go"}
+var extraFiles = []string{"simple_tree_spreader.go", "simple_tree_mkdirer.go"}
 
 // pointers to these structs are never nil where the translated functions see them, also as results
 var plainPtr = map[string]bool{"config": true}
@@ -1573,7 +1573,7 @@ func (t *tr) render() string {
 	var b strings.Builder
 	b.WriteString("-- GENERATED by /verif/translate from /repo's sources on every run of a check; do not edit.\n")
 	b.WriteString("-- A statement-by-statement translation of pure functions of gtree (see /verif/translate/main.go for the subset\n-- and the shape of the output). `Lemmas/SourceRefines.lean` relates these definitions to the hand-written model.\n")
-	b.WriteString("import Gtree.Go.Strings\nset_option linter.unusedVariables false\nnamespace Gtree.Src\nopen Gtree\n\n")
+	b.WriteString("import Gtree.Go.Strings\nimport Gtree.Model.FS\nset_option linter.unusedVariables false\nnamespace Gtree.Src\nopen Gtree\n\n")
 	b.WriteString("-- `untranslatable` marks a construct outside the translated subset; it has no definition, so a file containing it does not compile\n")
 	if len(t.errs) > 0 {
 		b.WriteString("-- the translator met constructs it does not translate:\n")
@@ -1592,6 +1592,7 @@ func (t *tr) render() string {
 	for _, s := range sent {
 		b.WriteString("  | " + s + "\n")
 	}
+	b.WriteString("  | os (e : Gtree.FErr)  -- an error returned by the operating system (os.Stat, os.MkdirAll, os.Create: the file-system model's errors)\n")
 	var es []string
 	for s := range t.errStruct {
 		if _, ok := t.structs[s]; ok {
